@@ -2,7 +2,7 @@ package props
 
 import (
 	"fmt"
-	"sync"
+	"sync/atomic"
 	"time"
 
 	sio "github.com/karagenc/socket.io-go"
@@ -17,16 +17,19 @@ import (
 // plan = a concurrent program: 2..16 tasks, each a sequence of operations over the server, namespace,
 // server socket, client socket and manager APIs; the handlers (event, acknowledgement, connection,
 // disconnect) issue operations themselves. Three detectors watch it:
-//   - the race detector: a report whose two conflicting accesses both lie in the repository's code;
-//   - the instrumented mutexes (lockshim): a call that never returns, a bubble in which every task is
-//     blocked, lock misuse, and the locks held when everything has gone quiet;
+//   - the race detector (mode "race", race build): a report whose two conflicting accesses both lie in
+//     the repository's code. In that build the harness shares its own state without any synchronisation
+//     (sim.RaceBuild): a harness mutex would order every task after every other in the detector's eyes;
+//   - the instrumented mutexes (mode "locks", ordinary build with lockshim's registries on): a call
+//     that never returns, a bubble in which every task is blocked, lock misuse, and the locks held when
+//     everything has gone quiet (calls that never return and bubble-wide deadlocks show in both modes);
 //   - the process: a panic of the library.
 
 func init() {
 	Register(&Property{
 		ID: "C16", Title: "The public API is safe under arbitrary concurrent use: no data race, no deadlock",
 		Level: "exploration",
-		Modes: []Mode{{Name: "program", Weight: 1}},
+		Modes: []Mode{{Name: "race", Weight: 3}, {Name: "locks", Weight: 2}},
 		Gen:   genC16, Run: runC16,
 		QuickRuns: 500, ThoroughRuns: 8000,
 		Race: true,
@@ -100,8 +103,13 @@ func runC16(e *sim.Env) {
 		}
 	}
 
-	var mu sync.Mutex
-	var srvSocks []sio.ServerSocket
+	var mu sim.HMutex // (a no-op in the race build: the harness must not order the tasks, see sim.RaceBuild)
+	// Server sockets are handed from the connection handler to the tasks the way an application would
+	// do it: properly published (an atomic store, an atomic load). That orders the handler before the
+	// task that picks the socket up and nothing else - the tasks are not ordered among themselves.
+	type sockBox struct{ s sio.ServerSocket }
+	var slots [64]atomic.Pointer[sockBox]
+	var nslots atomic.Int32
 	inHandler := 0
 	noteHandler := func() {
 		mu.Lock()
@@ -109,12 +117,17 @@ func runC16(e *sim.Env) {
 		mu.Unlock()
 	}
 	pickSrv := func(k int) sio.ServerSocket {
-		mu.Lock()
-		defer mu.Unlock()
-		if len(srvSocks) == 0 {
+		n := int(nslots.Load())
+		if n > len(slots) {
+			n = len(slots)
+		}
+		if n == 0 {
 			return nil
 		}
-		return srvSocks[k%len(srvSocks)]
+		if b := slots[k%n].Load(); b != nil {
+			return b.s
+		}
+		return nil
 	}
 	var srv *sio.Server
 	evHandler := func(s sio.ServerSocket) func(int) {
@@ -140,9 +153,9 @@ func runC16(e *sim.Env) {
 		for _, name := range nsps {
 			n := s.Of(name)
 			n.OnConnection(func(sock sio.ServerSocket) {
-				mu.Lock()
-				srvSocks = append(srvSocks, sock)
-				mu.Unlock()
+				if i := int(nslots.Add(1)) - 1; i < len(slots) {
+					slots[i].Store(&sockBox{sock})
+				}
 				sock.Join(rooms[len(sock.ID())%3])
 				sock.OnEvent("up", evHandler(sock))
 				sock.OnEvent("upack", func(n int, ack func(int)) { noteHandler(); sock.Join(rooms[n%3]); ack(n) })
@@ -185,11 +198,7 @@ func runC16(e *sim.Env) {
 		}
 		clients[c] = cl
 	}
-	world.WaitUntil(5*time.Second, func() bool {
-		mu.Lock()
-		defer mu.Unlock()
-		return len(srvSocks) >= nc*len(nsps)
-	})
+	world.WaitUntil(5*time.Second, func() bool { return int(nslots.Load()) >= nc*len(nsps) })
 	time.Sleep(20 * time.Millisecond)
 
 	noop := func(int) {}
@@ -339,7 +348,7 @@ func runC16(e *sim.Env) {
 		e.Violate("C16/api-blocked", "call never returned", "calls that did not return 15 s after the program ended: %v; locks held: %v", pend, sim.HeldLocks())
 	}
 	e.Check()
-	if held := sim.HeldLocks(); len(held) > 0 {
+	if held := sim.HeldLocks(); len(held) > 0 { // (mode "locks": the ordinary build with the lock registries on)
 		e.Violate("C16/mutex-left-held", fmt.Sprint(held[0]), "locks still held 15 s after the last operation, with no call in progress: %v", held)
 	}
 	mu.Lock()
